@@ -678,6 +678,14 @@ class SymEval:
                 target = self.lookup(n)
                 if target is not None and isinstance(obj, UObj):
                     return self.run(target, [idx], this=obj)
+            if op == "()" and hasattr(obj, "op_call"):
+                return obj.op_call(self, [self.rvalue(self.eval(a, env, fn)) for a in argn[1:]], n)
+            if len(argn) == 2 and op not in ("[]", "=", "()"):
+                other = self.rvalue(self.eval(argn[1], env, fn))
+                if hasattr(obj, "op_bin"):
+                    return obj.op_bin(self, op, other, True, n)
+                if hasattr(other, "op_bin"):
+                    return other.op_bin(self, op, obj, False, n)
             if op == "=" and hasattr(obj, "op_assign") and len(argn) == 2:
                 obj.op_assign(self, self.rvalue(self.eval(argn[1], env, fn)), n)
                 return obj
